@@ -10,12 +10,15 @@ import (
 
 // Scenario is the finite set of things that may happen in one run; a schedule is an order.
 type Scenario struct {
-	Name      string
-	Cfg       Config
-	Src       Src      // filled in by Check from the repository under test
-	Calls     []Option // start options, started in this order
-	Env       []Option // one-shot environment items
-	Early     bool     // notifications / acks / cancels may precede the start of their call
+	Name  string
+	Cfg   Config
+	Src   Src      // filled in by Check from the repository under test
+	Calls []Option // start options, started in this order
+	Env   []Option // one-shot environment items
+	Reuse bool     // a message id may be used by a second Do after the first returned (mtproto.Conn.Invoke
+	// re-invokes the same request after bad_server_salt); such runs are outside the model (fresh ids)
+	// and are checked by the monitors only
+	Early     bool // notifications / acks / cancels may precede the start of their call
 	SendErr   bool
 	Can       bool
 	DropErr   bool
@@ -35,8 +38,11 @@ func (sc *Scenario) options(s *Sim, started int, used []bool) ([]Option, []int) 
 		src[i] = -1
 	}
 	if started < len(sc.Calls) {
-		opts = append(opts, sc.Calls[started])
-		src = append(src, -2)
+		nx := sc.Calls[started]
+		if prev, ok := s.calls[nx.ID]; !ok || (sc.Reuse && prev.Finished) {
+			opts = append(opts, nx)
+			src = append(src, -2)
+		}
 	}
 	isStarted := func(id int64) bool { _, ok := s.calls[id]; return ok }
 	known := func(id int64) bool {
